@@ -138,4 +138,4 @@ Print Assumptions C10_F12_refuted.
 (** the float components whose state outlives a burst (DC blocker, AGC), bit-exact in IEEE-754 binary32: Properties/C10_float.v
     (compiled as a dependency; its Print Assumptions output is redirected to Properties/C10_float.*.out, which the check reads --
     printing the assumptions of the theorems that go through Flocq's real-number lemmas takes over a minute) *)
-From Sameold Require Import Properties.C10_float.
+From Sameold Require Import Properties.C10_float Properties.C10_timing.
